@@ -47,7 +47,7 @@ class Path:
 
 class EDT:
     def __init__(self, F, fn, type_assume=None, arg_assume=None, interesting_calls=(), interesting_fields=(),
-                 follow_try_continue=True, max_paths=4000, call_models=None, record_aggs=(), sym_args=None):
+                 follow_try_continue=True, max_paths=4000, call_models=None, record_aggs=(), sym_args=None, pins=None):
         self.F = F
         self.fn = fn
         self.type_assume = type_assume or {}      # enum path -> variant idx
@@ -59,6 +59,7 @@ class EDT:
         self.models = call_models or {}
         self.record_aggs = set(record_aggs)
         self.sym_args = sym_args or {}
+        self.pins = pins or {}
         self.paths = []
         self.error_exits = 0
 
@@ -180,7 +181,7 @@ class EDT:
                 if variants is not None:
                     return ("agg", rv["adt"], ops, rv["vi"], rv["variant"])
                 return ("agg", rv["adt"], ops, None, rv["variant"])
-            if ak == "tuple":
+            if ak in ("tuple", "array"):
                 return ("t", ops)
             return UNKNOWN
         if k == "bin":
@@ -282,6 +283,8 @@ class EDT:
         env = dict(env or {})
         for l, v in self.arg_assume.items():
             env[l] = v
+        for l, v in self.pins.items():
+            env[l] = v
         self._explore(start, env, dict(mem or {}), [], [], [], set())
         return self.paths
 
@@ -382,6 +385,8 @@ class EDT:
         if rv["k"] == "agg" and rv.get("ak") == "adt" and rv["adt"] in self.record_aggs:
             events.append(("agg", rv["adt"], rv["variant"], tuple(_short(x) for x in (val[2] if val[0] == "agg" else [])), self.fn.loc(st)))
         if not lhs["p"]:
+            if lhs["l"] in self.pins:
+                val = self.pins[lhs["l"]]
             env[lhs["l"]] = val
             # invalidate memory entries based on this local
             pref = "_%d" % lhs["l"]
@@ -404,18 +409,33 @@ class EDT:
         model = self.models.get(name) or self.models.get(gname) or BUILTIN_MODELS.get(name)
         if model is not None:
             val = model(self, args, t)
+        elif name.endswith("Deref>::deref") or gname.endswith("Deref::deref") or name.endswith("::as_str") or name.endswith("AsRef>::as_ref"):
+            val = args[0] if args else UNKNOWN
         elif self.follow_try and (name.endswith("Try>::branch") or gname.endswith("Try::branch")):
             self.error_exits += 1
-            val = ("agg", "core::ops::control_flow::ControlFlow", [UNKNOWN], 0, "Continue")
+            payload = UNKNOWN
+            if args and args[0][0] == "agg" and args[0][2]:
+                payload = args[0][2][0]
+            val = ("agg", "core::ops::control_flow::ControlFlow", [payload], 0, "Continue")
         for pat in self.calls:
             if name == pat or name.endswith("::" + pat) or gname == pat or gname.endswith("::" + pat):
                 shown = []
                 for a in args:
-                    if a[0] == "ref":
+                    pre = ""
+                    for _ in range(3):
+                        if a[0] != "ref":
+                            break
                         inner = self.read_place(env, mem, a[1])
                         if inner[0] in ("str", "c"):
                             a = inner
-                    shown.append(_short(a))
+                            break
+                        if inner[0] in ("s", "ref"):
+                            a = inner
+                            pre = "&"
+                            continue
+                        break
+                    sv = _short(a)
+                    shown.append(pre + sv if pre and isinstance(sv, str) else sv)
                 events.append(("call", pat, tuple(shown), self.fn.loc(t)))
                 break
         # a call taking `&mut place` may change it
@@ -449,7 +469,16 @@ class _IsVariant:
         return UNKNOWN
 
 
+def _identity(edt, args, t):
+    if args and args[0][0] in ("c", "s"):
+        return args[0]
+    return UNKNOWN
+
+
 BUILTIN_MODELS = {
+    "core::convert::Into::into": _identity,
+    "core::convert::From::from": _identity,
+    "<T as core::convert::Into>::into": _identity,
     "core::option::Option::is_none": _IsVariant(("None",)),
     "core::option::Option::is_some": _IsVariant(("Some",)),
     "core::result::Result::is_ok": _IsVariant(("Ok",)),
